@@ -24,6 +24,12 @@
 //	refresh). A key set that a finished download left unusable (stale in-flight
 //	marker) fails here.
 //
+// What quiescence cannot see is a goroutine that waits for a sync.Mutex (blocked, but not
+// "durably" for synctest): the bubble's clock then stands still. A watchdog that looks at
+// consistent goroutine snapshots ends the pass at once with "no verdict" in that case (see
+// watchMutexDeadlock for why this is never reported as a violation here); the schedule
+// exploration judges it (C13/termination/deadlock).
+//
 // Virtual time also buys schedules a free-running test cannot reach in real
 // time: downloads that take a while (callers pile up behind the shared download),
 // contexts that expire while their caller waits, cancellations from a sibling
@@ -58,7 +64,7 @@ const Marker = "C13-FREE-RUNNING-VERDICT"
 
 // callerCfg is one goroutine of an iteration: Calls sequential VerifySignature calls on one context.
 type callerCfg struct {
-	Tokens        []string `json:"tokens"`                    // token kinds of its sequential calls
+	Tokens        []string `json:"tokens"`                     // token kinds of its sequential calls
 	PreCancelled  bool     `json:"context_cancelled_at_start"` // the context is cancelled before the first call
 	TimeoutMs     int      `json:"context_timeout_ms,omitempty"`
 	CancelAfterMs int      `json:"cancelled_by_sibling_after_ms,omitempty"`
@@ -197,7 +203,101 @@ func bubbleGoroutines() []string {
 	return out
 }
 
+// goroutineStates parses a full goroutine dump: for every goroutine of a synctest bubble (the scaffolding of
+// synctest.Test excluded) its id and the state between the brackets, without the bubble annotation.
+func goroutineStates(dump string) (ids []string, states []string, blocks []string) {
+	for _, blk := range strings.Split(dump, "\n\n") {
+		head, _, _ := strings.Cut(blk, "\n")
+		if !strings.Contains(head, "synctest bubble") || strings.Contains(blk, "internal/synctest.Run(") || strings.Contains(blk, "synctest.testingSynctestTest(") {
+			continue
+		}
+		i, j := strings.IndexByte(head, '['), strings.LastIndexByte(head, ']')
+		if i < 0 || j < i {
+			continue
+		}
+		st, _, _ := strings.Cut(head[i+1:j], ", synctest bubble")
+		if k := strings.Index(st, ", "); k > 0 && strings.Contains(st[k:], "minutes") {
+			st = st[:k] // "select, 2 minutes"
+		}
+		ids = append(ids, strings.TrimSpace(head[:i]))
+		states = append(states, st)
+		blocks = append(blocks, blk)
+	}
+	return
+}
+
+// watchMutexDeadlock shortens the one kind of hang that synctest cannot see: a goroutine that waits for a sync.Mutex
+// is blocked, but not DURABLY blocked in synctest's sense, so virtual time stands still and neither time.Sleep nor
+// synctest.Wait of the bubble's root ever returns. On a consistent snapshot (the goroutine dump stops the world) in
+// which EVERY goroutine of the bubble is blocked — durably, or on a mutex / semaphore — and at least one is of the
+// second kind, nothing in the bubble can run and virtual time cannot advance: the pass cannot continue. That is NOT
+// reported as a violation: a library that (legitimately) holds its mutex while it waits for a timer would freeze in
+// the same way purely because the bubble's clock needs all goroutines durably blocked — an artefact of the method.
+// The pass ends at once with "no verdict" (instead of running into its time limit); whether callers can be left
+// waiting for a mutex is judged by the schedule exploration (C13/termination/deadlock). The real-time ticker only
+// decides when to look; two identical snapshots in a row are required.
+func watchMutexDeadlock(cur *atomic.Pointer[iterCfg]) {
+	lockLike := func(st string) bool {
+		return strings.HasPrefix(st, "sync.Mutex.Lock") || strings.HasPrefix(st, "sync.RWMutex.") || strings.HasPrefix(st, "semacquire")
+	}
+	prev := ""
+	buf := make([]byte, 4<<20)
+	for {
+		time.Sleep(300 * time.Millisecond)
+		n := runtime.Stack(buf, true)
+		ids, states, blocks := goroutineStates(string(buf[:n]))
+		final, locked := len(ids) > 0, 0
+		for _, st := range states {
+			switch {
+			case strings.Contains(st, "(durable)"):
+			case lockLike(st):
+				locked++
+			default:
+				final = false // running, runnable, syscall, IO wait, a channel from outside the bubble, ...
+			}
+		}
+		sig := strings.Join(ids, ",") + "|" + strings.Join(states, ",")
+		if !final || locked == 0 {
+			prev = ""
+			continue
+		}
+		if sig != prev {
+			prev = sig
+			continue
+		}
+		var desc []string
+		for i, b := range blocks {
+			var fr []string
+			for _, l := range strings.Split(b, "\n")[1:] {
+				if strings.HasPrefix(l, "\t") || strings.HasPrefix(l, "created by") {
+					continue
+				}
+				if j := strings.LastIndexByte(l, '('); j > 0 {
+					l = l[:j]
+				}
+				if fr = append(fr, l); len(fr) == 6 {
+					break
+				}
+			}
+			desc = append(desc, ids[i]+" ["+states[i]+"] "+strings.Join(fr, " < "))
+		}
+		cfg := cur.Load()
+		it := -1
+		if cfg != nil {
+			it = cfg.It
+		}
+		verdict(map[string]any{"signature": "",
+			"no_verdict": fmt.Sprintf("iteration %d: every goroutine of the execution is blocked and %d of them wait for a mutex (the others are durably blocked), so virtual time cannot advance and the free-running pass cannot go on; no verdict from this pass — whether callers can be left waiting for a mutex is judged by the schedule exploration", it, locked),
+			"iteration":  it, "config": cfg, "blocked_goroutines": desc})
+	}
+}
+
+var verdictOnce atomic.Bool
+
 func verdict(v map[string]any) {
+	if !verdictOnce.CompareAndSwap(false, true) {
+		select {} // another goroutine is reporting; the process is about to exit
+	}
 	b, _ := json.Marshal(v)
 	fmt.Printf("\n%s %s\n", Marker, b)
 	os.Stdout.Sync()
@@ -224,12 +324,15 @@ func TestRace(t *testing.T) {
 		toks[spec[0]] = j
 	}
 	var stuckChecks, probes int
+	var cur atomic.Pointer[iterCfg]
+	go watchMutexDeadlock(&cur)
 	for rep := 0; rep < iters; rep++ {
 		it := rep
 		if only >= 0 {
 			it = only
 		}
 		cfg := config(it)
+		cur.Store(&cfg)
 		synctest.Test(t, func(t *testing.T) {
 			var n atomic.Int64
 			var probe atomic.Bool
